@@ -50,7 +50,7 @@ pub fn engines() -> Vec<EngineDef> {
             worker: inctree::worker,
             replay: inctree::replay,
             shrink: inctree::shrink,
-            budget: |tier| if tier == "thorough" { (200_000, 1500.0, 2000) } else { (6_000, 150.0, 64) },
+            budget: |tier| if tier == "thorough" { (600_000, 1500.0, 2000) } else { (40_000, 150.0, 64) },
             rule: inctree::RULE,
             assumptions: inctree::ASSUMPTIONS,
             real: &["avra_lib::builder::build_file / build_str and everything below (parser, directives, passes)", "Rust std fs/io", "kernel tmpfs holding the include tree"],
@@ -353,7 +353,7 @@ fn known_match<'a>(known: &'a [KnownEntry], v: &Violation) -> Option<&'a KnownEn
 }
 
 fn write_replay(e: &EngineDef, v: &Violation, tier: &str, minimised: bool, reproduced: &str, idx: usize) -> std::path::PathBuf {
-    let dir = verif_dir().join("replays");
+    let dir = std::env::var("VERIF_REPLAYS_DIR").map(std::path::PathBuf::from).unwrap_or_else(|_| verif_dir().join("replays"));
     let _ = std::fs::create_dir_all(&dir);
     let p = dir.join(format!("{}-{}-{}.json", e.property, v.seed, idx));
     let doc = json!({
@@ -533,7 +533,7 @@ pub fn check(id: &str, tier: &str) -> i32 {
             "harness_errors": harness_errors,
         }
     });
-    let evdir = verif_dir().join("evidence");
+    let evdir = std::env::var("VERIF_EVIDENCE_DIR").map(std::path::PathBuf::from).unwrap_or_else(|_| verif_dir().join("evidence"));
     let _ = std::fs::create_dir_all(&evdir);
     let evp = evdir.join(format!("{}.json", e.property));
     if let Err(err) = std::fs::write(&evp, serde_json::to_string_pretty(&evidence).unwrap()) {
